@@ -119,6 +119,9 @@ func (e *Engine) doCall(s *State, d deferred, in ssa.Instruction) []callOut {
 		if !recv.NN && e.Cfg.NilDeref && len(recv.L) > 0 {
 			e.assert(s, e.oblName(s, in, "nilderef"), "nilderef", in.Pos(), "method call on nil interface", not(eq(recv.L[0], "0")))
 		}
+		if len(recv.L) > 0 {
+			s.assume(not(eq(recv.L[0], "0"))) // execution continues past an interface call only if the value was non-nil
+		}
 		key := ifaceMethodKey(c)
 		if ct := e.C.Funcs[key]; ct != nil {
 			args := append([]*Val{recv}, d.args...)
@@ -130,6 +133,13 @@ func (e *Engine) doCall(s *State, d deferred, in ssa.Instruction) []callOut {
 					e.unsupportedf("same_as target %s of %s has no function/contract", target, key)
 				}
 				e.checkSoleImpl(c, tfn, key, in)
+				// the implementation's contract speaks about the concrete receiver, not the interface value
+				if recv.Under != nil {
+					args[0] = recv.Under
+				} else if len(recv.L) == 1 {
+					args[0] = &Val{L: []string{app("iref", recv.L[0])}, NN: true}
+					s.assume(not(eq(app("iref", recv.L[0]), "0"))) // receivers are trusted non-nil (listed assumption)
+				}
 				return []callOut{{s, e.applyContract(s, tct, tfn, tfn.Signature, nil, args, in, target)}}
 			}
 			return []callOut{{s, e.applyContract(s, ct, nil, c.Method.Type().(*types.Signature), c.Value.Type(), args, in, key)}}
@@ -400,6 +410,11 @@ func (e *Engine) applyContract(s *State, ct *Contract, fn *ssa.Function, sig *ty
 	ctx.SnapEpoch = s.Epoch
 	ctx.SnapPending = s.pendingHavoc[:len(s.pendingHavoc):len(s.pendingHavoc)]
 	e.event(s, Event{Kind: "call", What: key, Args: args, ArgTypes: e.argTypesFor(args), Pos: e.P.Pos(in.Pos()), Instr: in, Extra: map[string]string{"contract": "1", "blocking": ct.Flags["blocking"]}})
+	recvFreshAtCall := len(args) > 0 && len(args[0].L) == 1 && (s.FreshRefs[args[0].L[0]] || s.Private[args[0].L[0]])
+	freshBefore := make(map[string]bool, len(s.FreshRefs))
+	for k := range s.FreshRefs {
+		freshBefore[k] = true
+	}
 	if !ct.Flag("noescape") {
 		for _, a := range args {
 			e.escape(s, nil, a)
@@ -435,6 +450,32 @@ func (e *Engine) applyContract(s *State, ct *Contract, fn *ssa.Function, sig *ty
 		if t, ok := e.tryEvalBool(s, ctx, en.Expr); ok {
 			s.assume(t)
 		}
+	}
+	exclOK := recvFreshAtCall
+	if pn, ok := ct.Flags["exclusive_of"]; ok && fn != nil {
+		// the exclusively-owned object is a named parameter, not the receiver
+		exclOK = false
+		for i, p := range fn.Params {
+			if p.Name() == strings.TrimSpace(pn) && i < len(args) {
+				a := args[i]
+				if a.Under != nil {
+					a = a.Under
+				}
+				exclOK = len(a.L) == 1 && (freshBefore[a.L[0]] || s.Private[a.L[0]])
+			}
+		}
+	}
+	if e.Exclusive {
+		exclOK = true // the whole pass assumes sequential execution
+	}
+	if len(ct.EnsuresExcl) > 0 && fn != nil && len(args) > 0 && exclOK {
+		// the caller allocated the receiver and has not shared it: nobody can interfere
+		for _, en := range ct.EnsuresExcl {
+			if t, ok := e.tryEvalBool(s, ctx, en.Expr); ok {
+				s.assume(t)
+			}
+		}
+		e.note("exclusive-ownership postconditions of " + key + " used for a receiver allocated in the caller and not yet escaped")
 	}
 	switch len(rvals) {
 	case 0:
